@@ -943,3 +943,39 @@ func lemmaC01_frm_commands(devAddr DevAddr, fcnt uint32, req LinkADRReqPayload, 
 	verifAssert(c1.CID == DevStatusReq, "cmd1-cid")
 	verifAssert(c1.Payload == nil, "cmd1-nopayload")
 }
+
+// ---------------------------------------------------------------------------
+// C04: a join-accept encrypted by the network and decrypted by the end-device (same key) carries the
+// original payload and MIC (the device uses aes128_encrypt to decrypt what the server aes128_decrypted).
+// ---------------------------------------------------------------------------
+
+func lemmaC04_joinaccept_cipher(key AES128Key, v JoinAcceptPayload, mic MIC) {
+	if v.JoinNonce >= 1<<24 || v.RXDelay > 15 || v.DLSettings.RX2DataRate > 15 || v.DLSettings.RX1DROffset > 7 {
+		return
+	}
+	v.CFList = nil
+	orig := v
+	p := PHYPayload{MHDR: MHDR{MType: JoinAccept, Major: LoRaWANR1}, MACPayload: &v, MIC: mic}
+	err := p.EncryptJoinAcceptPayload(key)
+	verifAssert(err == nil, "encrypts")
+	if err != nil {
+		return
+	}
+	err2 := p.DecryptJoinAcceptPayload(key)
+	verifAssert(err2 == nil, "decrypts")
+	if err2 != nil {
+		return
+	}
+	verifAssert(p.MIC == mic, "mic-recovered")
+	w, ok := p.MACPayload.(*JoinAcceptPayload)
+	verifAssert(ok, "payload-type")
+	if !ok {
+		return
+	}
+	verifAssert(w.JoinNonce == orig.JoinNonce, "joinnonce")
+	verifAssert(w.HomeNetID == orig.HomeNetID, "netid")
+	verifAssert(w.DevAddr == orig.DevAddr, "devaddr")
+	verifAssert(w.DLSettings == orig.DLSettings, "dlsettings")
+	verifAssert(w.RXDelay == orig.RXDelay, "rxdelay")
+	verifAssert(w.CFList == nil, "no-cflist")
+}
